@@ -373,12 +373,12 @@ theorem frame_applyVoid (o : Ops V) (f : V → Except Err V) (inp out : String) 
 theorem frame_scalarDivider (o : Ops V) (inp : String) (arg : V) (out : String) :
     Frame (· = out) (fun _ => True) (scalarDivider (σ := ATab V) o inp arg out) := by
   unfold scalarDivider
-  exact frame_ite _ (fun _ => frame_throw _) (fun _ => frame_scalarVoid o _ inp _ out)
+  exact frame_applyVoid o _ inp out
 
 theorem frame_scalarRevDivider (o : Ops V) (inp : String) (arg : V) (out : String) :
     Frame (· = out) (fun _ => True) (scalarRevDivider (σ := ATab V) o inp arg out) := by
   unfold scalarRevDivider
-  exact frame_bind (P := fun _ => True) (frame_applyVoid o _ inp out) (fun _ _ => frame_scalarVoid o _ out arg out)
+  exact frame_applyVoid o _ inp out
 
 theorem frame_shiftCircular (o : Ops V) (inp : String) (arg : V) (out : String) :
     Frame (· = out) (fun _ => True) (shiftCircular (σ := ATab V) o inp arg out) := by
